@@ -8,19 +8,21 @@ mod verif_kani_pstr_compare {
     use super::*;
 
     #[repr(align(8))]
-    struct Cells([u8; 32]);
+    struct Cells([u8; 16]);
 
     // a string of 0..=2 symbolic characters written at byte offset `off` of an 8-aligned, zeroed buffer;
     // returns its byte length
-    fn write_string(buf: &mut Cells, off: usize) -> usize {
+    fn write_string(buf: &mut Cells, off: usize, max_chars: usize) -> usize {
         let n: usize = kani::any();
-        kani::assume(n <= 2);
+        kani::assume(n <= max_chars);
         let mut len = 0usize;
         let mut i = 0;
         while i < 2 {
             if i < n {
-                let c: char = kani::any();
-                kani::assume(c != '\u{0}');
+                // one representative per UTF-8 length, two 4-byte characters with different lead bytes
+                let k: u8 = kani::any();
+                kani::assume(k < 6);
+                let c: char = match k { 0 => 'a', 1 => 'b', 2 => '\u{e9}', 3 => '\u{20ac}', 4 => '\u{1f600}', _ => '\u{f0000}' };
                 let l = c.encode_utf8(&mut buf.0[off + len..off + len + 4]).len();
                 len += l;
             }
@@ -36,15 +38,15 @@ mod verif_kani_pstr_compare {
     }
 
     #[kani::proof]
-    #[kani::unwind(10)]
+    #[kani::unwind(18)]
     fn compare_pstr_slices_spec() {
-        let mut b1 = Cells([0u8; 32]);
-        let mut b2 = Cells([0u8; 32]);
+        let mut b1 = Cells([0u8; 16]);
+        let mut b2 = Cells([0u8; 16]);
         let o1: usize = kani::any();
         let o2: usize = kani::any();
         kani::assume(o1 < 8 && o2 < 8);
-        let l1 = write_string(&mut b1, o1);
-        let l2 = write_string(&mut b2, o2);
+        let l1 = write_string(&mut b1, o1, 1);
+        let l2 = write_string(&mut b2, o2, 2);
         let s1 = &b1.0[o1..];
         let s2 = &b2.0[o2..];
         let r = compare_pstr_slices(s1, s2);
@@ -73,6 +75,6 @@ mod verif_kani_pstr_compare {
 }
 '''},
     "harnesses": {
-        "compare_pstr_slices_spec": {"bound": "two strings of at most 2 characters each (every Unicode scalar value, 1..4 bytes), every start offset inside a cell (bounded in length)"},
+        "compare_pstr_slices_spec": {"tier": "thorough", "bound": "a string of at most 1 character against one of at most 2 characters, drawn from {a, b, U+E9, U+20AC, U+1F600, U+F0000} (one per UTF-8 length, two 4-byte lead bytes), every start offset inside a cell (bounded)"},
     },
 }
